@@ -22,6 +22,7 @@
 #include <etl/_type_traits/is_nothrow_copy_constructible.hpp>
 #include <etl/_type_traits/is_nothrow_move_constructible.hpp>
 #include <etl/_type_traits/is_trivially_copy_assignable.hpp>
+#include <etl/_type_traits/is_trivially_constructible.hpp>
 #include <etl/_type_traits/is_trivially_copy_constructible.hpp>
 #include <etl/_type_traits/is_trivially_destructible.hpp>
 #include <etl/_type_traits/is_trivially_move_assignable.hpp>
@@ -52,8 +53,9 @@ struct TETL_TRIVIAL_ABI inplace_vector {
 
     constexpr inplace_vector() = default;
 
+    // Asks about construction from T const& itself: is_trivially_copy_constructible_v<T> answers for T().
     inplace_vector(inplace_vector const& other)
-        requires etl::is_trivially_copy_constructible_v<T>
+        requires etl::is_trivially_constructible_v<T, T const&>
     = default;
 
     constexpr inplace_vector(inplace_vector const& other) noexcept(etl::is_nothrow_copy_constructible_v<T>)
@@ -75,7 +77,7 @@ struct TETL_TRIVIAL_ABI inplace_vector {
 
     auto operator=(inplace_vector const& other) -> inplace_vector&
         requires(
-            etl::is_trivially_copy_assignable_v<T> and etl::is_trivially_copy_constructible_v<T>
+            etl::is_trivially_copy_assignable_v<T> and etl::is_trivially_constructible_v<T, T const&>
             and etl::is_trivially_destructible_v<T>
         )
     = default;
